@@ -117,7 +117,7 @@ def fmtSO : Option SO → String
     s!"vtextmem/Boxes={b}"
   | some (.queue d) => s!"queue/Depth={d}"
   | some (.stack d) => s!"stack/Depth={d}"
-  | some (.uart b d) => s!"uart/Depth={d}/BaudRate={b}"
+  | some (.uart b d) => s!"uart/BaudRate={b}/Depth={d}"
   | some (.kbd d) => s!"kbd/Depth={d}"
 
 /-! ### machines -/
